@@ -117,6 +117,7 @@ pub fn minimise(sc: &StreamScenario, target: &str, budget: usize) -> (StreamScen
             Box::new(|s| s.opts.byte_classes = true),
             Box::new(|s| s.scribble = false),
             Box::new(|s| s.infallible_ctor = false),
+            Box::new(|s| s.drive = 0),
             Box::new(|s| s.closure = vec![ClosureStep::Table]),
             Box::new(|s| {
                 s.writes.clear();
